@@ -680,7 +680,7 @@ class Extraction:
         return text
 
     # ------------------------------------------------------------------------------------------
-    def render(self, keep_fns=None, lib_items=None, canary=False):
+    def render(self, keep_fns=None, lib_items=None, canary=False, delegated=()):
         """keep_fns: set of function keys to include (None = all).  lib_items: [(name, kind, text, file)].
         canary=True: every exec body and every lemma body starts with `assert(false)` (vacuity probe: each
         must then FAIL; one that passes has an unsatisfiable precondition).
@@ -693,7 +693,7 @@ class Extraction:
         add("#![allow(unused, non_snake_case, non_camel_case_types)]\nuse vstd::prelude::*;\nuse core::cmp::Ordering;\nverus! {\n")
         for (n, k, t, f) in (lib_items or []):
             if canary and k == "proof":
-                t = re.sub(r"(?m)^\{[ \t]*$", "{\n    assert(false); // canary", t, count=1)
+                t = re.sub(r"(?m)^\{[ \t]*\n((?:[ \t]*(?:hide|reveal)\([^\n]*\n)*)", lambda m: "{\n" + m.group(1) + "    assert(false); // canary\n", t, count=1)
             add(t + "\n", n, k)
         impl_open = None
         impl_has = False
@@ -710,7 +710,11 @@ class Extraction:
                 key, text = ch[1], ch[2]
                 if keep_fns is not None and key not in keep_fns:
                     continue
-                if canary:
+                if key in delegated:
+                    # modular verification: this body is out of the property's scope; its contract is assumed here
+                    # and discharged by the property that owns it (named in properties.json)
+                    text = _delegate_body(text, self.functions[key])
+                elif canary:
                     text = _canary_body(text, self.functions[key])
                 if impl_open is not None and not impl_has:
                     add(impl_open + "\n")
@@ -733,6 +737,16 @@ class Extraction:
             out.append("\n")
             line += nl + 1
         return "".join(out), spans
+
+
+def _delegate_body(text, info):
+    con = info["contract"]
+    if con is not None and con.external_body:
+        return text
+    its = rl.parse_items(strip_inserts_keep_len(text))
+    it = its[0]
+    pad = re.match(r"[ \t]*", text).group(0)
+    return pad + INS_L + "#[verifier::external_body] /* delegated */ " + INS_R + text.lstrip()[:0] + text[len(pad):it.body_open] + "{ unimplemented!() }" + text[it.body_close + 1:]
 
 
 def _canary_body(text, info):
@@ -859,7 +873,7 @@ def _fn_mentions(text, own_type, fn_index):
     return out
 
 
-def cone(ex, lib, root_fns, root_lemmas=()):
+def cone(ex, lib, root_fns, root_lemmas=(), stop_at=()):
     """returns (set of function keys, list of library items in file order)"""
     fn_index = {}
     fn_text = {}
@@ -879,7 +893,7 @@ def cone(ex, lib, root_fns, root_lemmas=()):
         work.append(("lib", l))
     # every non-proof library item is always included (definitions are cheap); proof items on demand
     for it in lib.items:
-        if it[1] != "proof":
+        if it[1] not in ("proof", "exec"):
             keep_lib.add(id(it))
             work.append(("text", it[2], None))
     while work:
@@ -889,6 +903,10 @@ def cone(ex, lib, root_fns, root_lemmas=()):
                 continue
             keep_fn.add(w[1])
             text, own = fn_text[w[1]], ex.functions[w[1]]["impl"]
+            if w[1] in stop_at:
+                # delegated: only the signature and contract are used, not the body
+                con = ex.functions[w[1]]["contract"]
+                text = (con.requires + con.ensures) if con is not None else ""
         elif w[0] == "lib":
             new = [it for it in lib.by_name[w[1]] if id(it) not in keep_lib]
             if not new:
